@@ -1205,3 +1205,115 @@ Proof.
   rewrite (text_nested_repeated jsx env mr name P ds Hname Hb Hnp Hd Hdne Htext Hbud).
   f_equal. apply map_ext. intros i. fold n. rewrite (nested_value_flat _ P Hnf Hne). reflexivity.
 Qed.
+
+(* ================================================================ `name{P}*N` with `$#` allowed: the copy loop itself *)
+Definition nested_copy (name : str) (P : payload) (reps : list rep) (n i : N) : anode :=
+  ANode (Some name) (nested_value (mkRep n i false :: reps) P) (Some (mkRep n i false)) None [] false.
+
+Lemma once_nested env (name : str) P pos nt rp cur st :
+  name <> [] -> tk nt = TLiteral name -> ce_text env = WNone -> payload_ok P = true ->
+  exists st', same_counters st st' /\
+  once_gen env (TElem (Some [nt]) None (Some (payload_tokens pos P)) rp false []) cur st =
+    Ok ([ANode (Some name) (nested_value (cs_repeaters st) P) cur None [] false], st').
+Proof.
+  intros Hne Hn Htext Hok.
+  destruct name as [|c name']; [congruence|].
+  destruct (stringify_payload env pos P st Htext Hok) as [st' [Hs' E']].
+  unfold nested_value.
+  destruct (payload_tokens_shape pos (cs_repeaters st) P) as [[Et Ep]|[t [r [p [ps [Et Ep]]]]]].
+  - exists st. split; [apply same_counters_refl|]. rewrite Et, Ep.
+    cbn. unfold stringify. rewrite Hn. cbn. rewrite app_nil_r. reflexivity.
+  - exists st'. split; [exact Hs'|]. rewrite Ep.
+    cbn [once_gen nonempty]. cbn [stringify_name bind]. unfold stringify at 1. rewrite Hn.
+    cbn [bind]. rewrite Et. cbn [nonempty]. rewrite <- Et. rewrite E'. rewrite Ep.
+    cbn. rewrite app_nil_r. reflexivity.
+Qed.
+
+Lemma iter_nested env (name : str) P pos nt rp n reps :
+  name <> [] -> tk nt = TLiteral name -> ce_text env = WNone -> payload_ok P = true ->
+  forall k i acc st,
+    (exists v, cs_repeaters st = mkRep n v false :: reps) ->
+    (Z.of_nat k <= cs_guard st)%Z -> i + N.of_nat k = n ->
+    exists st',
+      iter_gen env (TElem (Some [nt]) None (Some (payload_tokens pos P)) rp false []) n false k i acc st =
+        Ok (acc ++ map (nested_copy name P reps n) (nseq k i), st').
+Proof.
+  intros Hne Hn Htext Hok.
+  induction k as [|k IH]; intros i acc st [v Hreps] Hg Hi.
+  - exists st. cbn [iter_gen nseq map]. rewrite app_nil_r. reflexivity.
+  - cbn [iter_gen].
+    assert (Hlt : (i <? n) = true) by (apply N.ltb_lt; lia).
+    rewrite Hlt.
+    assert (Hr1 : cs_repeaters (set_top_value i st) = mkRep n i false :: reps).
+    { unfold set_top_value. rewrite Hreps. reflexivity. }
+    assert (Hg1 : cs_guard (set_top_value i st) = cs_guard st).
+    { unfold set_top_value. rewrite Hreps. reflexivity. }
+    destruct (once_nested env name P pos nt rp (Some (mkRep n i false)) (set_top_value i st) Hne Hn Htext Hok)
+      as [st2 [[Hr2 Hg2] E]].
+    rewrite E. cbn [bind andb]. rewrite Hr1.
+    fold (nested_copy name P reps n i).
+    destruct (cs_guard (dec_guard st2) <=? 0)%Z eqn:Ez.
+    + (* the budget is used up exactly with the last copy *)
+      assert (k = O).
+      { unfold dec_guard in Ez. cbn [cs_guard] in Ez. rewrite Hg2, Hg1 in Ez. lia. }
+      subst k. eexists. cbn [nseq map]. reflexivity.
+    + destruct (IH (i + 1) (acc ++ [nested_copy name P reps n i]) (dec_guard st2)) as [st' E'].
+      * exists i. unfold dec_guard. cbn [cs_repeaters]. rewrite Hr2, Hr1. reflexivity.
+      * unfold dec_guard. cbn [cs_guard]. rewrite Hg2, Hg1. lia.
+      * lia.
+      * exists st'. rewrite E'. cbn [nseq map]. rewrite <- app_assoc. reflexivity.
+Qed.
+
+(* text_nested_repeated_full: as text_nested_repeated, `$#` allowed (it stands for nothing: there is no wrap text) *)
+Theorem text_nested_repeated_full jsx env mr name P ds :
+  name_ok name -> payload_ok P = true -> all_digits ds -> ds <> [] -> ce_text env = WNone ->
+  let n := count_of ds in
+  (Z.of_N n <= budget_of mr)%Z ->
+  parse_abbr jsx env mr (name ++ c_lbrace :: payload_text P ++ c_rbrace :: c_star :: ds) =
+    Ok (map (fun i => ANode (Some name) (nested_value [mkRep n i false] P) (Some (mkRep n i false)) None [] false)
+            (nseq (N.to_nat n) 0%N)).
+Proof.
+  intros Hname Hb Hd Hne Htext n Hbud. unfold parse_abbr.
+  rewrite (tokenize_nested_rep name P ds Hname Hb Hd Hne). cbv zeta. unfold nested_abbr_tokens.
+  set (ln := length name).
+  set (nt := mkTok (TLiteral name) 0 ln).
+  set (open := mkTok (TBracket true BExpr) ln (ln + 1)).
+  set (close := mkTok (TBracket false BExpr) (ln + 1 + length (payload_text P)) (ln + 1 + length (payload_text P) + 1)).
+  set (inner := payload_tokens (ln + 1) P).
+  set (tr := mkTok (TRepeater (rep_count ds) 0 false) _ _).
+  replace (([nt; open] ++ inner ++ [close]) ++ [tr]) with (nt :: open :: inner ++ [close; tr])
+    by (cbn [app]; rewrite <- app_assoc; reflexivity).
+  rewrite (parse_single jsx _ _ (block_text_rep jsx nt open close tr name inner (mkRep (rep_count ds) 0 false)
+                                  eq_refl eq_refl eq_refl eq_refl (payload_tokens_plain _ _))).
+  unfold leaf_node. cbn [lf_name lf_attrs lf_value lf_repeat lf_self].
+  unfold convert. cbn [conv_list]. rewrite conv_stmt_unfold. unfold conv_stmt_body. cbn [node_rep].
+  unfold eff_count. cbn [rimplicit rcount rvalue].
+  change (if rep_count ds =? 0 then 1 else rep_count ds) with n.
+  set (st0 := push_rep (mkRep n 0 false) _).
+  assert (Hn1 : (1 <= n)%N) by apply written_count_pos.
+  assert (Hrounds : N.to_nat (N.min n (Z.to_N (Z.max (cs_guard st0) 1))) = N.to_nat n).
+  { f_equal. unfold st0, push_rep. cbn [cs_guard]. unfold budget_of in Hbud. lia. }
+  rewrite Hrounds.
+  destruct (iter_nested env name P (ln + 1) nt (Some (mkRep (rep_count ds) 0 false)) n [] (proj1 Hname) eq_refl Htext Hb
+              (N.to_nat n) 0%N [] st0) as [st' E].
+  - exists 0%N. reflexivity.
+  - unfold st0, push_rep. cbn [cs_guard]. unfold budget_of in Hbud. lia.
+  - lia.
+  - unfold inner. rewrite E. cbn [bind app]. rewrite app_nil_r. rewrite Htext. reflexivity.
+Qed.
+
+(* C02 reading of it: without `${n}` fields every copy is ONE string *)
+Theorem numbering_nested_text_full jsx env mr name P ds :
+  name_ok name -> payload_ok P = true ->
+  forallb (fun kt => negb (is_field (fst kt))) (snd P) = true -> payload_text P <> [] ->
+  all_digits ds -> ds <> [] -> ce_text env = WNone ->
+  let n := count_of ds in
+  (Z.of_N n <= budget_of mr)%Z ->
+  parse_abbr jsx env mr (name ++ c_lbrace :: payload_text P ++ c_rbrace :: c_star :: ds) =
+    Ok (map (fun i => ANode (Some name) (Some [VStr (payload_out [mkRep n i false] P)]) (Some (mkRep n i false)) None [] false)
+            (nseq (N.to_nat n) 0%N)).
+Proof.
+  intros Hname Hb Hnf Hne Hd Hdne Htext n Hbud.
+  rewrite (text_nested_repeated_full jsx env mr name P ds Hname Hb Hd Hdne Htext Hbud).
+  f_equal. apply map_ext. intros i. fold n. rewrite (nested_value_flat _ P Hnf Hne). reflexivity.
+Qed.
